@@ -673,8 +673,8 @@ class LogJacobianRule(LogRule):
         original_shape = list(np.shape(np.atleast_1d(sequence[0])))
         ndim = len(original_shape)
         if sum(original_shape) == ndim:
-            f_del = np.vstack(sequence)
-            h = np.vstack(steps)
+            f_del = np.vstack([np.ravel(r) for r in sequence])
+            h = np.vstack([np.ravel(r) for r in steps])
         else:
             axes = [0, 1, 2][:ndim]
             axes[:2] = axes[1::-1]
